@@ -1,8 +1,8 @@
 package drivers
 
 import (
-	"encoding/binary"
 	"bytes"
+	"encoding/binary"
 	"encoding/json"
 	"os"
 	"path/filepath"
